@@ -141,6 +141,21 @@ def run_history(rng, counters, digests, samples, violations, known, layered, nop
                 return True
             problems, runs = analyze_window(trace, ls.runner.mgr, ref, R, T, counters)
             info = mgrmon.writers_and_reads(hg.shadow, ls.runner)
+            # lower bound from the TRUE data flow known to the generator (the trigger oracle above is built on the
+            # relation the manager declares; a task that under-declares what it writes would satisfy it consistently)
+            if op[0] in ("set", "iop", "replace") and not problems:
+                ack = hg.shadow.ckey(op[1])
+                lower = set()
+                for tid, (w, rd) in info.items():
+                    clo = set()
+                    for ck in w:
+                        clo |= hg.shadow.true_reads_closure(ck)
+                    if any(mgrmon._related(ack, c) for c in clo if c not in w) and ack not in w:
+                        lower.add(tid)
+                counters["true_downstream_tasks_checked"] = counters.get("true_downstream_tasks_checked", 0) + len(lower)
+                gone = lower - set(runs)
+                if gone:
+                    problems.append("task(s) truly downstream of the assigned location did not run: %s" % sorted(map(str, gone))[:4])
             inv = mgrmon.inversions(runs, info)
             kf1_hit = False
             if inv:
